@@ -316,6 +316,7 @@ def shrink(art, line, clause):
 # ---------------------------------------------------------------- receive paths (owns-its-bytes)
 
 RX_OPTS = [4, 11, 11, 12, 15, 17, 2000, 2013, 300]
+RX_OPS = ("rxtcp", "rxudp", "rxmon", "usrv2")
 
 
 def rx_msg(rng, mid):
@@ -380,6 +381,23 @@ def gen_rxmon_lines(ctx):
     return lines
 
 
+def gen_usrv2_lines(ctx):
+    """A real udp.Server (loopback socket) with a slow OnNewConn callback: the first datagrams of several peers back to back."""
+    rng = random.Random(ctx.seed * 32452843 + 3)
+    n = 300 if ctx.tier == "thorough" else 40
+    lines = []
+    for k in range(n):
+        np_ = rng.choice([2, 2, 3, 4, 6])
+        sends = []
+        for p in range(np_):
+            sends.append((p, G.encode_udp(rx_msg(rng, 100 + 17 * k + p))))
+        for p in range(np_):
+            if rng.random() < 0.4:
+                sends.append((p, G.encode_udp(rx_msg(rng, 5000 + 17 * k + p))))
+        lines.append("usrv2 %d %d %d %s" % (rng.choice([3, 5, 8]), np_, len(sends), " ".join("%d:%s" % (p, hx(d)) for p, d in sends)))
+    return lines
+
+
 def evaluate_rx(ctx, art, lines, tag="rx"):
     impl = common.run_test_harness(ctx, art["rx"], "TestC02RX", lines, tag=tag)
     if impl is None or len(impl) != len(lines):
@@ -403,6 +421,16 @@ def shrink_rx(ctx, art, line, clause="owns-its-bytes"):
             for bb in ([b[0]], b[:2], b):
                 for sp in ("0", f[1]):
                     cands.append("rxtcp %s %d %d %s" % (sp, len(aa), len(bb), " ".join(aa + bb)))
+    elif f[0] == "usrv2":
+        first = {}
+        for x in f[4:]:
+            first.setdefault(x.split(":")[0], x)
+        xs = list(first.values())
+        for i in range(len(xs)):
+            for j in range(len(xs)):
+                if i != j:
+                    cands.append("usrv2 %s 2 2 0:%s 1:%s" % (f[1], xs[i].split(":")[1], xs[j].split(":")[1]))
+        cands.append(line)
     elif f[0] == "rxmon":
         fr = f[4:]
         for i in range(len(fr) - 1):
@@ -426,8 +454,8 @@ def explore_rx(ctx, art):
         return
     corpus = []
     for p in sorted(glob.glob(os.path.join(common.VERIF, "corpus", PROP, "*.json"))):
-        corpus += [l for l in json.load(open(p)).get("input", []) if l.startswith("rx")]
-    lines = corpus + gen_rx_lines(ctx) + gen_rxmon_lines(ctx)
+        corpus += [l for l in json.load(open(p)).get("input", []) if l.split()[0] in RX_OPS]
+    lines = corpus + gen_rx_lines(ctx) + gen_rxmon_lines(ctx) + gen_usrv2_lines(ctx)
     impl, model, verd = evaluate_rx(ctx, art, lines)
     if impl is None:
         ctx.broken.append(("correspondence", "C02 receive-path harness run failed", ""))
@@ -439,7 +467,7 @@ def explore_rx(ctx, art):
     for i, (l, o) in enumerate(zip(lines, impl)):
         ctx.count("op-" + l.split()[0])
         of = o.split()
-        if len(of) > 1 and of[0] in ("rx", "rxm") and of[1].isdigit():
+        if len(of) > 1 and of[0] in ("rx", "rxm", "usrv2") and of[1].isdigit():
             delivered += int(of[1])
         if o.startswith("panic") or o in ("bad-op", "conn-error"):
             ctx.violations.append(common.Violation("no-crash", X.signature("no-crash", l, PROP), "%s -> %s" % (l[:200], o[:200]),
@@ -453,7 +481,9 @@ def explore_rx(ctx, art):
             if verd[i].startswith("violates"):
                 hits.setdefault(verd[i].split(" ", 1)[1], []).append((l, o))
     ctx.cov["rx_messages_delivered"] = delivered
-    what = {"owns-its-bytes": "a message still queued / in its handler changed when later input was read",
+    what = {"each-peer-gets-its-own-bytes": "a peer's message was decoded from bytes another peer sent (the receive buffer was reused "
+                                            "before the datagram was processed)",
+            "owns-its-bytes": "a message still queued / in its handler changed when later input was read",
             "reused-message-as-fresh": "a message decoded behind a frame the request monitor dropped does not have the fields of "
                                        "its own bytes"}
     for clause, hs in sorted(hits.items()):
@@ -479,7 +509,7 @@ def explore(ctx, art):
     par = 16 if thorough else 8
     corpus = []
     for p in sorted(glob.glob(os.path.join(common.VERIF, "corpus", PROP, "*.json"))):
-        corpus += [l for l in json.load(open(p)).get("input", []) if not l.startswith("rx")]   # rx lines: explore_rx
+        corpus += [l for l in json.load(open(p)).get("input", []) if l.split()[0] not in RX_OPS]   # connection-level lines: explore_rx
     if corpus:
         impl, model, verd = X.evaluate(art, corpus, par=2)
         if impl is None:
@@ -564,7 +594,7 @@ def replay(ctx, rep):
     if not lines:
         print("replay file names no failing input:", rep.get("no_longer_checks"))
         return common.finish(ctx) if not art["proofs_ok"] else 0
-    if lines[0].startswith("rx"):
+    if lines[0].split()[0] in RX_OPS:
         impl, model, verd = evaluate_rx(ctx, art, lines, tag="replay")
     else:
         impl, model, verd = X.evaluate(art, lines)
